@@ -195,7 +195,7 @@ def curve_info(exe, cid):
 
 
 def streams(ctx, scale=1):
-    per = (150 if ctx.tier == "quick" else 20000) * scale
+    per = (150 if ctx.tier == "quick" else 3000) * scale
     res = []
     for cfg, ids in CURVES.items():
         exe = _exe(ctx, cfg)
